@@ -262,6 +262,25 @@ def arity_agreement(ctx, rule, modname, fn, min_names=1):
 
         def may_reach(st, c):
             cst = au.enclosing_stmt(c)
+            # the call is made under a condition that excludes the condition of the binding (`if mode == 'a': f = ..` ... `if mode == 'a': f(x)` else ..)
+            try:
+                cb = {(au.src(e), p) for e, p in atoms(path_conds(st))}
+                cc = {(au.src(e), p) for e, p in atoms(path_conds(c))}
+                if any((t, not p) in cc for t, p in cb):
+                    return False
+                # x == 'a' and x == 'b' cannot both hold
+
+                def eqs(conds):
+                    out_ = {}
+                    for e, p in conds:
+                        if p and isinstance(e, ast.Compare) and len(e.ops) == 1 and isinstance(e.ops[0], ast.Eq) and isinstance(e.comparators[0], ast.Constant):
+                            out_.setdefault(au.src(e.left), set()).add(repr(e.comparators[0].value))
+                    return out_
+                e1, e2 = eqs(atoms(path_conds(st))), eqs(atoms(path_conds(c)))
+                if any(k in e2 and not (e1[k] & e2[k]) for k in e1):
+                    return False
+            except Exception:
+                pass
             # a binding that comes later in the text reaches the call only around a loop that contains both
             if cst is not None and id(st) in order_ and id(cst) in order_ and order_[id(st)] > order_[id(cst)]:
                 l1 = {id(a) for a in au.ancestors(st) if isinstance(a, (ast.For, ast.While))}
